@@ -711,6 +711,14 @@ func genArgs(t *rapid.T) ArgsCase {
 		for i := range c.Types {
 			if rapid.IntRange(0, 2).Draw(t, "present") != 0 {
 				kv = append(kv, fmt.Sprintf("%q:%s", c.Keys[i], elems[i]))
+			} else if rapid.IntRange(0, 2).Draw(t, "casevariant") == 0 {
+				// a member whose name differs from the key in letter case only: another
+				// name, so the key is absent (Obj keys are map keys, not struct fields)
+				k := strings.ToUpper(c.Keys[i])
+				if k == c.Keys[i] {
+					k = strings.ToLower(k)
+				}
+				kv = append(kv, fmt.Sprintf("%q:%s", k, rapid.SampledFrom([]string{elems[i], `{"zz":1}`, `"str"`}).Draw(t, "cv")))
 			}
 		}
 		if rapid.IntRange(0, 3).Draw(t, "extra") == 0 {
@@ -731,7 +739,7 @@ var parts = []engine.AnyPart{
 	engine.Part[PosCase]{Name: "concurrent", Run: runPos, Gen: genConcurrent,
 		Rule: "2-8 goroutines x 200 overlapping calls of ONE positional handler, every request tagged with a distinct integer in each integer argument: every call must receive exactly its own request's arguments; non-trivial by construction"},
 	engine.Part[ArgsCase]{Name: "argsobj", Run: runArgs, Gen: genArgs,
-		Rule: "handler.Args with 0-6 typed targets and nil slots decoding arrays of length n-1 / n / n+1, wrong element types and non-arrays, and marshalling back; handler.Obj with 0-6 keyed targets decoding objects over subsets / supersets of the keys and non-objects, targets holding prior values; oracle = element-wise json.Unmarshal, untouched targets compared with their prior value; non-trivial = length mismatch, nil slot, missing or extra key; distinct = the case"},
+		Rule: "handler.Args with 0-6 typed targets and nil slots decoding arrays of length n-1 / n / n+1, wrong element types and non-arrays, and marshalling back; handler.Obj with 0-6 keyed targets decoding objects over subsets / supersets of the keys (also members that differ from a key in letter case only) and non-objects, targets holding prior values; oracle = element-wise json.Unmarshal, untouched targets compared with their prior value; non-trivial = length mismatch, nil slot, missing or extra key; distinct = the case"},
 }
 
 func TestProp(t *testing.T)   { engine.RunParts(t, "C16", parts) }
